@@ -143,8 +143,54 @@ def graph_method(eng, bm, obj, name, args, kwargs, node):
         kt = key_term(nodes.k, args[0])
         fl = vt.flat(Rec(vt.cls, fields))
         # an existing node keeps attributes that are not given: all fields are given here, so the entry is replaced
-        new_nodes = type(nodes)(nodes.k, nodes.v, z3.Store(nodes.dom, kt, True), [z3.Store(c, kt, x) for c, x in zip(nodes.comps, fl)])
+        from .types import sdict_store
+        new_nodes = sdict_store(nodes, kt, fl)
         _wb(eng, bm, obj.with_field("nodes", new_nodes))
+        return None
+    if name == "add_nodes_from" and len(args) == 1 and not kwargs and type(args[0]).__name__ == "SymRange":
+        # G.add_nodes_from(range(lo, hi)): the nodes lo..hi-1, in that order, without attributes.  Supported where none of them
+        # exists yet (obligation) and every node attribute is optional
+        from .types import SODict, SList as _SL
+        r = args[0]
+        vt = nodes.v
+        if any(type(ft).__name__ != "TOpt" for ft in vt.fields.values()):
+            raise Unsupported("add_nodes_from: the node record has attributes that are not optional")
+        ks = nodes.dom.sort().domain()
+        if ks != z3.IntSort():
+            raise Unsupported("add_nodes_from(range) on a graph whose node keys are not integers")
+        kx, ix = z3.Int("_anx"), z3.Int("_ani")
+        inr = z3.And(r.lo <= kx, kx < r.hi)
+        eng.oblige("model", f"add_nodes_from(range): none of the nodes exists yet@{eng.site(node)}",
+                   z3.ForAll([kx], z3.Implies(inr, z3.Not(z3.Select(nodes.dom, kx)))), node)
+        absent = Rec(vt.cls, {f: Opt(True, ft.t.fresh("absent")) for f, ft in vt.fields.items()})
+        fl = vt.flat(absent)
+        comps = [z3.Lambda([kx], z3.If(inr, a, c[kx])) for a, c in zip(fl, nodes.comps)]
+        dom = z3.Lambda([kx], z3.Or(z3.Select(nodes.dom, kx), inr))
+        if isinstance(nodes, SODict):
+            n0 = nodes.order.n
+            L = z3.If(r.hi > r.lo, r.hi - r.lo, 0)
+            arr = z3.Lambda([ix], z3.If(ix < n0, nodes.order.comps[0][ix], r.lo + (ix - n0)))
+            pos = z3.Lambda([kx], z3.If(inr, n0 + (kx - r.lo), nodes.pos[kx]))
+            new_nodes = SODict(nodes.k, nodes.v, dom, comps, _SL(nodes.order.t, n0 + L, [arr]), pos)
+        else:
+            new_nodes = type(nodes)(nodes.k, nodes.v, dom, comps)
+        _wb(eng, bm, obj.with_field("nodes", new_nodes))
+        return None
+    if name == "add_edges_from" and len(args) == 1 and not kwargs:
+        # G.add_edges_from(pairs): supported where both endpoints of every pair are nodes already (obligation)
+        pairs = eng.as_sequence(args[0])
+        if len(pairs.comps) != 2:
+            raise Unsupported("add_edges_from: the entries are not pairs of scalar keys")
+        ix = z3.Int("_aei")
+        a_, b_ = pairs.comps[0][ix], pairs.comps[1][ix]
+        from .types import _select
+        a_, b_ = _select(pairs.comps[0], ix), _select(pairs.comps[1], ix)
+        rng = z3.And(0 <= ix, ix < pairs.n)
+        eng.oblige("model", f"add_edges_from endpoints exist@{eng.site(node)}",
+                   z3.ForAll([ix], z3.Implies(rng, z3.And(z3.Select(nodes.dom, key_term(nodes.k, a_)), z3.Select(nodes.dom, key_term(nodes.k, b_))))), node)
+        px = z3.Const("_aep", adj.dom.sort().domain())
+        listed = z3.Exists([ix], z3.And(rng, z3.Or(px == key_term(adj.k, (a_, b_)), px == key_term(adj.k, (b_, a_)))))
+        _wb(eng, bm, obj.with_field("adj", SSet(adj.k, z3.Lambda([px], z3.Or(z3.Select(adj.dom, px), listed)))))
         return None
     if name == "add_edge" and len(args) == 2 and not kwargs:
         a, b = args
@@ -312,7 +358,8 @@ def sdict_method(eng, bm, obj, name, args, kwargs, node):
             for k, v in (src.items() if isinstance(src, dict) else src):
                 kt = key_term(obj.k, k)
                 fl = obj.v.flat(v)
-                new = SDict(new.k, new.v, z3.Store(new.dom, kt, True), [z3.Store(c, kt, f) for c, f in zip(new.comps, fl)])
+                from .types import sdict_store
+                new = sdict_store(new, kt, fl)
             _wb(eng, bm, new)
             return None
         raise Unsupported("dict.update from symbolic dict")
